@@ -24,6 +24,8 @@ func runC09(c *Ctx) {
 	c.Rule("R5", "follower request parameters", 1)
 	fsmRestore(c, "R1")
 	recoveryErrors(c, "R2")
+	c.Rule("R6", "transferred batches are written through the write-ahead log (durable, and transferable again)", 1)
+	walNeverDisabled(c, "R6")
 	fsmValidate(c, "R3")
 	p := c.P
 	// the writer by role, exactly as the apply rules resolve it
